@@ -228,7 +228,7 @@ def main():
             try:
                 r = json.loads(l); done.add((r['file'], r['line'], r['op'], r['new']))
             except Exception: pass
-    todo = [m for m in chosen if (m['file'], m['line'], m['op'], m['new']) not in done]
+    todo = [m for m in chosen if (m['file'], m['line'], m['op'], m['new'].strip()) not in done]
     print(f'{total} sites in {len(byfile)} files; {len(chosen)} sampled (seed {seed}); {len(todo)} to run on {jobs} workers', flush=True)
     lock = threading.Lock()
     head = sh(f'git -C {REPO} rev-parse --short HEAD').stdout.strip()
